@@ -173,6 +173,12 @@ class Ctx:
     def check(self, name, cond, known=None, info=None):
         self.engine.check(self, name, cond, known, info)
 
+    def check_all(self, name, conds):
+        """Discharge each obligation separately (never one big conjunction:
+        see DESIGN 1, closing-query strategy)."""
+        for k, c in enumerate(conds):
+            self.engine.check(self, name, c, None, k)
+
     def out(self, name, value):
         self.outs.append((name, value))
 
@@ -253,6 +259,10 @@ class NCtx:
     def check(self, name, cond, known=None, info=None):
         self.checks.append((name, bool(cond), info if isinstance(
             info, (str, int, type(None))) else repr(info)))
+
+    def check_all(self, name, conds):
+        for k, c in enumerate(conds):
+            self.check(name, c, None, k)
 
     def out(self, name, value):
         self.outs.append((name, value))
